@@ -155,9 +155,32 @@ def entry_at_the_end(rng):
     return None
 
 
+def entry_before_foreign_code(rng):
+    """an entry block is deleted as a whole while the code behind it belongs to another function or to none: nothing
+    may be promoted"""
+    import emodify
+
+    for _ in range(20):
+        case = emodify.gen_case(rng, nblocks=rng.randint(2, 6), with_data=rng.random() < 0.3)
+        text = case["text"]
+        cands = [i for i in range(len(text) - 1) if text[i]["kind"] == "code" and text[i].get("entry") and text[i + 1]["kind"] == "code"
+                 and text[i + 1].get("func") != text[i].get("func")]
+        if cands:
+            i = rng.choice(cands)
+            case["edits"] = [e for e in case["edits"] if e["block"] != i and e.get("all") is None]
+            case["edits"].append({"op": "delete", "block": i, "off": 0, "len": emodify.block_size(text[i])})
+            return case
+    return None
+
+
 def run(ctx):
     LE.run(ctx, "C06", 1500, 40000)
     camp = LE.Campaign(ctx, "C06")
+    for _ in range(ctx.budget(80, 2000)):
+        case = entry_before_foreign_code(ctx.rng)
+        if case is not None:
+            ctx.count("entry-before-foreign-code")
+            camp.add(case)
     for _ in range(ctx.budget(80, 2000)):
         case = entry_at_the_end(ctx.rng)
         if case is not None:
